@@ -57,6 +57,24 @@ def _seed_defs():
     add("hq3-frag-mixed", [B.seq_header(hq3), B.picture(hq3, 4)] + B.fragmented_picture(hq3, 5, 2) + [B.padding(b"x"), B.end_of_sequence()])
     add("empty-seq", [B.seq_header(hq3), B.end_of_sequence()])
     add("420-fields-ld", B.simple_stream(ld1.but(color_diff_format_index=2, frame_width=4, frame_height=8, picture_coding_mode=1, dwt_depth=1), 2))
+    # transform parameters that change from picture to picture within one sequence (legal: they are
+    # coded per picture) -- anything cached across pictures must be keyed on all of them
+    def pics(f0, variants, frag=()):
+        units = [B.seq_header(f0)]
+        for i, kw in enumerate(variants):
+            f = f0.but(**kw)
+            if i in frag:
+                units += B.fragmented_picture(f, i, 1 if i % 2 else 2)
+            else:
+                units.append(B.picture(f, i))
+        units.append(B.end_of_sequence())
+        return units
+
+    hq3w = hq3.but(frame_width=8, frame_height=4)
+    add("hq3-varying-depth", pics(hq3w, [dict(dwt_depth=2, wavelet_index=1), dict(dwt_depth=1, wavelet_index=1), dict(dwt_depth=0), dict(dwt_depth=2, wavelet_index=3)], frag=(1, 3)))
+    add("hq3-varying-slices-and-ho", pics(hq3w, [dict(slices_x=2, slices_y=1), dict(slices_x=1, slices_y=2, dwt_depth=1, dwt_depth_ho=1, quant_matrix=[0, 1, 1, 1, 2]), dict(slices_x=2, slices_y=2, dwt_depth=1), dict(slices_x=4, slices_y=1, dwt_depth_ho=2, quant_matrix=[0, 1, 2])], frag=(2,)))
+    ld3w = T(profile=B.PROFILE_LD, major_version=3, frame_width=8, frame_height=4)
+    add("ld3-varying-slice-bytes", pics(ld3w, [dict(slice_bytes_numerator=4), dict(slice_bytes_numerator=9, slice_bytes_denominator=2, dwt_depth=1, wavelet_index=1), dict(slices_x=1, slice_bytes_numerator=7), dict(dwt_depth=2, wavelet_index=2, slice_bytes_numerator=11)], frag=(3,)))
     # header-only streams at the specialised levels: their field mutations reach the level-table
     # rejections (ValueNotAllowedInLevel on profile / major_version / base format ...)
     for lv, bvf, prof, mv in ((64, 13, B.PROFILE_LD, 2), (65, 9, B.PROFILE_LD, 2), (66, 17, B.PROFILE_HQ, 2), (3, 14, B.PROFILE_HQ, 2)):
